@@ -12,10 +12,12 @@ Property theorems only (definitions of the specification and helper lemmas live 
   the base theme `base`; `specLookup base fs` is the statement of the property (newest frame that
   defines the name, falling through inheriting frames, stopping at a non-inheriting one).
 * `runOps f h st` runs a history `h` of `push_theme` / `pop_theme` / `raise` / `with use_theme(..): body`
-  statements; `f = true` is `ThemeContext.__enter__` as found (it ignores `inherit`), `f = false` the
-  repaired code.
+  statements; `f = true` is `ThemeContext.__enter__` of rich 9.10.0 as found (it ignores `inherit`), `f = false` the
+  repaired code (fix 2ea71d3, what /repo contains now).
 * `cfgItems lower interp` is the modelled `configparser`; `lower` / `interp` = `true` is the parser
-  `Theme.from_file` builds today (`optionxform = str.lower`, `BasicInterpolation`).
+  `Theme.from_file` built in rich 9.10.0 as found (`optionxform = str.lower`, `BasicInterpolation`); /repo now builds
+  `lower = true`, `interp = false`: interpolation was switched off by fix 1124f7d, the lower-casing is the known finding
+  `config-name-case` (not repaired).
 -/
 namespace RichModel.C20
 open RichModel RichModel.Theme RichModel.Cfg
@@ -240,7 +242,7 @@ theorem config_roundtrip_inherit (lower interp : Bool) (defaults : Dict σ) (par
   | none => simpa using hdef n h
 
 /-- Side condition on the *generated* table: every key of `DEFAULT_STYLES` is a safe config name
-for today's lower-casing parser (so `Theme().config` is inside the round trip's domain). -/
+for the lower-casing parser `Theme.from_file` builds (known finding `config-name-case`; so `Theme().config` is inside the round trip's domain). -/
 theorem default_names_safe : Gen.defaultStyleNames.all (safeName true) = true := by decide +kernel
 
 /-! ## Witnesses: the defects of the code as found (variant flags `true`) -/
